@@ -12,7 +12,7 @@ import io
 from tools.lib.framework import impl_call
 from tools.harness import c07_build as B
 
-CLAIMED = False
+CLAIMED = True
 CONFIG = {'assumptions': [
     'the unit DIEs are only the carrier of the list references: .debug_info/.debug_abbrev are assembled by the '
     'harness (DIE decoding is property C04); every list section comes from the Coq encoders',
